@@ -4,8 +4,33 @@
    spec_run / spec_answer / informativeb / carriers (Model/C18.v) are loop-free and do not look at the mode flags. *)
 From Coq Require Import ZArith List Bool.
 Import ListNotations.
-From SCMO Require Import Lib.Val Model.C18 Proofs.C18_a Proofs.C18_b Proofs.C18_c Proofs.C18_d Proofs.C18_e Proofs.C18_f Proofs.C18.
+From SCMO Require Import Lib.Val Gen.GenAlleles Model.C18 Proofs.C18_s Proofs.C18_a Proofs.C18_b Proofs.C18_c Proofs.C18_d Proofs.C18_e Proofs.C18_f Proofs.C18.
 Open Scope Z_scope.
+
+(* ---- T: the machine (informative, cache_name, cacheable, line_of, parse_line, read_lines, self_lazy, step ...) is built from
+        Gen/GenAlleles.v, regenerated from the current source on every run.  The current source has the shape the
+        reference definitions of Proofs/C18_s.v (used by every proof below) assume: *)
+Theorem C18_source_shape :
+  (forall cf r, informative cf r = informative_ref cf r) /\
+  (forall a, gsingle a = single a /\ gusingle a = single a) /\
+  (forall cf s, gselected cf s = selected cf s) /\
+  g_missing_break = false /\ gletters = letters /\
+  (forall p, g_store_pos p = p - 1) /\
+  (g_sentinel_pos = -1 /\ g_sentinel_base = str_N /\ g_sentinel_name = str_Nop) /\
+  (forall c, cacheable c = cacheable_ref c) /\
+  (forall cf c, cache_name cf c = cache_name_ref cf c) /\
+  (forall p kv, line_of p kv = print_int p ++ 9 :: fst kv ++ 9 :: join 44 (snd kv) ++ [10]) /\
+  (forall l, parse_line l = parse_line_ref l) /\
+  (forall p, g_read_skip false p 0 = false /\ g_read_stop false p 0 = false) /\
+  (forall cf, self_lazy cf = is_lazy cf) /\
+  g_has_invalid_contig = false /\ g_table_per_instance = true.
+Proof.
+  exact (conj informative_shape (conj (fun a => conj (gsingle_shape a) (gusingle_shape a)) (conj gselected_shape
+        (conj missing_continue_shape (conj gletters_shape (conj store_pos_shape (conj sentinel_shape (conj cacheable_shape
+        (conj cache_name_shape (conj line_of_shape (conj parse_line_shape (conj read_filter_shape (conj self_lazy_shape
+        (conj has_invalid_contig_shape table_per_instance_shape)))))))))))))).
+Qed.
+Print Assumptions C18_source_shape.
 
 (* ---- C18_spec: eager loading answers exactly what the VCF says *)
 Theorem C18_spec : forall v cf qs fs, vcf_ok v = true -> is_lazy cf = false ->
